@@ -13,6 +13,7 @@ parameters from the C01 object round trip, which enters as the hypothesis record
 -/
 import Proofs.Lemmas.Ops
 import Proofs.Lemmas.OpsC01
+import Proofs.Lemmas.OpsC01b
 import Proofs.Lemmas.OpsSpec
 import Proofs.Lemmas.CimXml10
 import Proofs.Props.XmlSyntax
@@ -461,6 +462,290 @@ theorem C04_childrt_assoc_instances (C : DecCodec) (S : Spec) (hC : CodecOk C S)
   rw [e] at this
   exact this
 
+/-! ### No tree hypotheses left: `WfTree` / `SoftStable` from C01's decidable `CleanObj`; the remaining result forms -/
+
+/-- **WireOk from CleanObj.**  For a C01-sendable object whose strings are clean (`CleanObj`: XML Chars only, no CR in
+    character data, no TAB / LF / CR in names — a Bool function of the object) and whose embedded nesting is within
+    the depth, well-formedness and wire-stability of its encoding are theorems (C01 `good_encObj`).  The only
+    hypotheses that remain are about third-party code: `CodecOk`, `CodecClean` (float formatting prints ASCII). -/
+theorem C04_wireok_of_clean (C : DecCodec) (S : Spec) (hK : CodecClean C.toCodec) (d : Nat) (o : Obj)
+    (hs : Sendable S o) (hc : CleanObj o) (hd : embDepth o ≤ d) : WireOk C S d o :=
+  wireOk_of_clean C S hK d o hs hc hd
+
+/-- a parameter the caller may pass, stated on the object itself (no statement about trees) -/
+def CleanParam (S : Spec) (d : Nat) (sig : List Row) (op : Str) (p : Str × PVal) : Prop :=
+  ScalarParam sig op p ∨
+    ∃ n o, p = (n, .obj o) ∧ StableAttr n ∧ IsParamObj o ∧ Sendable S o ∧ CleanObj o ∧ embDepth o ≤ d
+
+theorem C04_paramok_of_clean (C : DecCodec) (S : Spec) (hK : CodecClean C.toCodec) (d : Nat) (sig : List Row)
+    (op : Str) (p : Str × PVal) (h : CleanParam S d sig op p) : ParamOk C S d sig op p := by
+  cases h with
+  | inl h => exact .scalar p h
+  | inr h =>
+    obtain ⟨n, o, rfl, hn, hp, hs, hc, hd⟩ := h
+    exact .obj n o hn hp (wireOk_of_clean C S hK d o hs hc hd)
+
+/-- **server_sees_what_client_said for clean objects**: `C04_server_sees_objects` with every tree hypothesis
+    discharged -/
+theorem C04_server_sees_clean_objects (C : DecCodec) (S : Spec) (hC : CodecOk C S) (hK : CodecClean C.toCodec)
+    (depth : Nat) (sig : List Row) (op ns : Str) (ps : Params) (hop : StableAttr op) (hns : StableAttr ns)
+    (h : ∀ p ∈ dropNone ps, CleanParam S depth sig op p) :
+    ∃ t, wireTree (requestXml C.toCodec op ns ps) = some t ∧
+      serverSees C depth sig t =
+        .ok ("1001".toList, { op := op, ns := ns, params := (dropNone ps).map (seenOf C.toCodec) }) :=
+  C04_server_sees_objects C S hC depth sig op ns ps hop hns
+    (fun p hp => C04_paramok_of_clean C S hK depth sig op p (h p hp))
+
+section
+variable (C : DecCodec) (S : Spec) (hC : CodecOk C S) (hK : CodecClean C.toCodec) (depth : Nat) (sig : List Row)
+  (dflt host : Str) (Srv : Seen → Result) (row : Row) (c : Call)
+
+include hC hK in
+/-- **C04_commutes for any result list whose items are read back** (`ChildRT.iret`, discharged below for every
+    form an operation returns), parameters clean -/
+theorem C04_commutes_iret (ns : Str) (ps : Params) (l : List RItem) (view : List CItem)
+    (hprep : prepare dflt row c = .ok (ns, ps)) (hop : StableAttr row.op.toList) (hns : StableAttr ns)
+    (hps : ∀ p ∈ dropNone ps, CleanParam S depth sig row.op.toList p)
+    (hret : row.hasReturn = true)
+    (hS : Srv { op := row.op.toList, ns := ns, params := (dropNone ps).map (seenOf C.toCodec) } = .ok [.iret l])
+    (hI : ChildRT C (embAt C depth) host row.op.toList (.iret l) (.iret view)) :
+    exchange C depth sig dflt host Srv row c = clientPost row ns host ps (some [.iret view]) := by
+  have hzip : Zip (fun p q => ParamRT C (embAt C depth) (kindOf sig row.op.toList q.1) p q) (dropNone ps)
+      ((dropNone ps).map (seenOf C.toCodec)) := by
+    apply Zip.map
+    intro p hp
+    cases C04_paramok_of_clean C S hK depth sig row.op.toList p (hps p hp) with
+    | scalar p hsc =>
+      have hrt := C04_scalar_param_roundtrip C (embAt C depth) hsc
+      cases hsc <;> exact hrt
+    | obj n o hn hpo hw => exact ParamRT.obj (C04_objrt_from_C01 C S hC depth) _ hn hw hpo
+  rw [C04_commutes C depth sig dflt host Srv row c ns ps _ [.iret l] _ hprep hop hns hzip hS (.cons hI .nil)]
+  simp [imethodResult, RspChild.isError, RspChild.isIret, hret, pure, Except.pure]
+
+include hC hK in
+/-- **C04_commutes_objects for clean objects**: parameters and result items described on the objects only -/
+theorem C04_commutes_clean_objects (ns : Str) (ps : Params) (l : List RItem) (view : RItem → Obj) (nm : Str)
+    (hprep : prepare dflt row c = .ok (ns, ps)) (hop : StableAttr row.op.toList) (hns : StableAttr ns)
+    (hps : ∀ p ∈ dropNone ps, CleanParam S depth sig row.op.toList p)
+    (hret : row.hasReturn = true)
+    (hS : Srv { op := row.op.toList, ns := ns, params := (dropNone ps).map (seenOf C.toCodec) } = .ok [.iret l])
+    (hl : ∀ x ∈ l, plainObjOf host row.op.toList x = some (view x) ∧ Sendable S (view x) ∧ CleanObj (view x) ∧
+      embDepth (view x) ≤ depth ∧ (encObj C.toCodec (view x)).name = nm) :
+    exchange C depth sig dflt host Srv row c =
+      clientPost row ns host ps (some [.iret (l.map (fun x => CItem.plain (wdObj C.toCodec (view x))))]) :=
+  C04_commutes_objects C S hC depth sig dflt host Srv row c ns ps l view nm hprep hop hns
+    (fun p hp => C04_paramok_of_clean C S hK depth sig row.op.toList p (hps p hp)) hret hS
+    (fun x hx => ⟨(hl x hx).1, wireOk_of_clean C S hK depth _ (hl x hx).2.1 (hl x hx).2.2.1 (hl x hx).2.2.2.1,
+      (hl x hx).2.2.2.2⟩)
+
+end
+
+/-- `C04_childrt_assoc_instances` with the tree hypotheses discharged: clean paths and instance bodies -/
+theorem C04_childrt_assoc_clean_instances (C : DecCodec) (S : Spec) (hC : CodecOk C S) (hK : CodecClean C.toCodec)
+    (d : Nat) (host op : Str) (l : List (Path × Inst))
+    (h : ∀ x ∈ l, FullInstPath x.1 ∧ SendablePath S x.1 ∧ SendableInstBody S x.2 ∧ depthInst x.2 ≤ d ∧
+      cleanPath x.1 = true ∧ cleanInstBody x.2 = true) :
+    ChildRT C (embAt C d) host op
+      (.iret (l.map (fun x => RItem.opInst (Inst.setPath x.1 x.2))))
+      (.iret (l.map (fun x => CItem.tagged "VALUE.OBJECTWITHPATH".toList
+        (.obj (.inst (Inst.setPath (wdPath C.toCodec x.1) (wdInstNoPath C.toCodec x.2))))))) :=
+  C04_childrt_assoc_instances C S hC d host op l (fun x hx =>
+    ⟨(h x hx).1, (h x hx).2.1, (h x hx).2.2.1, (h x hx).2.2.2.1,
+      (good_owp_inst C hK x.1 x.2 (h x hx).2.2.2.2.1 (h x hx).2.2.2.2.2).1,
+      (good_owp_inst C hK x.1 x.2 (h x hx).2.2.2.2.1 (h x hx).2.2.2.2.2).2⟩)
+
+/-- **names of associations** (AssociatorNames / ReferenceNames of an instance): OBJECTPATH items whose instance
+    paths carry host and namespace arrive as those paths (DSP0201 defaults: key types) -/
+theorem C04_childrt_assoc_names (C : DecCodec) (S : Spec) (hC : CodecOk C S) (hK : CodecClean C.toCodec)
+    (d : Nat) (host op : Str) (l : List Path)
+    (h : ∀ p ∈ l, FullInstPath p ∧ SendablePath S p ∧ cleanPath p = true) :
+    ChildRT C (embAt C d) host op
+      (.iret (l.map RItem.opPath))
+      (.iret (l.map (fun p => CItem.tagged "OBJECTPATH".toList (.obj (.path (wdPath C.toCodec p)))))) := by
+  have key : ∀ p ∈ l, ritemXml C.toCodec host op (RItem.opPath p) = E "OBJECTPATH" [] [encPath C.toCodec p] := by
+    intro p hp
+    obtain ⟨hf, _⟩ := h p hp
+    match p, hf with
+    | .inst c' (some hh) (some n) ks, _ => simp [ritemXml, Path.withHostD]
+  have := iret_of_items C d host op (l.map RItem.opPath)
+    (fun r => match r with
+      | .opPath p => CItem.tagged "OBJECTPATH".toList (.obj (.path (wdPath C.toCodec p)))
+      | _ => CItem.other) "OBJECTPATH".toList (by
+      intro r hr
+      simp only [List.mem_map] at hr
+      obtain ⟨p, hp, rfl⟩ := hr
+      obtain ⟨hf, hsp, hcp⟩ := h p hp
+      rw [key p hp]
+      have hg := good_objectpath C hK p hcp
+      exact ⟨rfl, rfl, hg.1, hg.2, decRetItem_opPath C S hC d p hf hsp⟩)
+  rw [List.map_map] at this
+  exact this
+
+/-- **class-level association results** (Associators / References of a class): VALUE.OBJECTWITHPATH items of a
+    class path with host and namespace and a class arrive as the pair (class path, class with that path), with
+    the DSP0201 defaults -/
+theorem C04_childrt_assoc_classes (C : DecCodec) (S : Spec) (hC : CodecOk C S) (hK : CodecClean C.toCodec)
+    (d : Nat) (host op : Str) (l : List (Path × Cls))
+    (h : ∀ x ∈ l, FullClsPath x.1 ∧ SendablePath S x.1 ∧ SendableCls S x.2 ∧ depthCls x.2 ≤ d ∧
+      cleanPath x.1 = true ∧ cleanCls x.2 = true) :
+    ChildRT C (embAt C d) host op
+      (.iret (l.map (fun x => RItem.opCls x.1 x.2)))
+      (.iret (l.map (fun x => CItem.tagged "VALUE.OBJECTWITHPATH".toList
+        (.pair (wdPath C.toCodec x.1) (Cls.setPath (wdPath C.toCodec x.1) (wdCls C.toCodec x.2)))))) := by
+  have key : ∀ x ∈ l, ritemXml C.toCodec host op (RItem.opCls x.1 x.2) =
+      E "VALUE.OBJECTWITHPATH" [] [encPath C.toCodec x.1, encCls C.toCodec x.2] := by
+    intro x hx
+    obtain ⟨hf, _⟩ := h x hx
+    obtain ⟨p, cl⟩ := x
+    match p, hf with
+    | .cls c' (some hh) (some n), _ => simp [ritemXml, Path.withHostD]
+  have := iret_of_items C d host op (l.map (fun x => RItem.opCls x.1 x.2))
+    (fun r => match r with
+      | .opCls p cl => CItem.tagged "VALUE.OBJECTWITHPATH".toList
+          (.pair (wdPath C.toCodec p) (Cls.setPath (wdPath C.toCodec p) (wdCls C.toCodec cl)))
+      | _ => CItem.other) "VALUE.OBJECTWITHPATH".toList (by
+      intro r hr
+      simp only [List.mem_map] at hr
+      obtain ⟨x, hx, rfl⟩ := hr
+      obtain ⟨hf, hsp, hsc, hd, hcp, hcc⟩ := h x hx
+      rw [key x hx]
+      have hg := good_owp_cls C hK x.1 x.2 hcp hcc
+      exact ⟨rfl, rfl, hg.1, hg.2, decRetItem_opCls C S hC d x.1 x.2 hf hsp hsc hd⟩)
+  rw [List.map_map] at this
+  exact this
+
+/-- **query results** (ExecQuery): instances travel as VALUE.OBJECT and arrive as instances without path, with
+    the DSP0201 defaults -/
+theorem C04_childrt_query_instances (C : DecCodec) (S : Spec) (hC : CodecOk C S) (hK : CodecClean C.toCodec)
+    (d : Nat) (host op : Str) (hform : instForm op = .valueObject) (l : List Inst)
+    (h : ∀ i ∈ l, SendableInstBody S i ∧ depthInst i ≤ d ∧ cleanInstBody i = true) :
+    ChildRT C (embAt C d) host op
+      (.iret (l.map RItem.inst))
+      (.iret (l.map (fun i => CItem.tagged "VALUE.OBJECT".toList (.obj (.inst (wdInstNoPath C.toCodec i)))))) := by
+  have := iret_of_items C d host op (l.map RItem.inst)
+    (fun r => match r with
+      | .inst i => CItem.tagged "VALUE.OBJECT".toList (.obj (.inst (wdInstNoPath C.toCodec i)))
+      | _ => CItem.other) "VALUE.OBJECT".toList (by
+      intro r hr
+      simp only [List.mem_map] at hr
+      obtain ⟨i, hi, rfl⟩ := hr
+      obtain ⟨hsi, hd, hci⟩ := h i hi
+      have e : ritemXml C.toCodec host op (RItem.inst i) = E "VALUE.OBJECT" [] [encInstElem C.toCodec i] := by
+        simp [ritemXml, hform]
+      rw [e]
+      have hg := good_valueobject C hK i hci
+      exact ⟨rfl, rfl, hg.1, hg.2, decRetItem_valueObject C S hC d i hsi hd⟩)
+  rw [List.map_map] at this
+  exact this
+
+section
+variable (C : DecCodec) (S : Spec) (hC : CodecOk C S) (hK : CodecClean C.toCodec) (depth : Nat) (sig : List Row)
+  (dflt host : Str) (Srv : Seen → Result) (row : Row) (c : Call)
+
+include hC hK in
+/-- **AssociatorNames / ReferenceNames of an instance, end to end**: whatever instance paths (with host and namespace)
+    the server behaviour answers to the request it saw, the caller gets exactly those paths (DSP0201 defaults) -/
+theorem C04_assoc_names_commutes (ns n : Str) (tp : Path) (rest : Params) (l : List Path)
+    (hrow : row.post = .assocNames) (hret : row.hasReturn = true) (htp : Path.isInst tp = true)
+    (hprep : prepare dflt row c = .ok (ns, (n, some (.obj (.path tp))) :: rest))
+    (hop : StableAttr row.op.toList) (hns : StableAttr ns)
+    (hps : ∀ q ∈ dropNone ((n, some (.obj (.path tp))) :: rest), CleanParam S depth sig row.op.toList q)
+    (hS : Srv { op := row.op.toList, ns := ns,
+                params := (dropNone ((n, some (.obj (.path tp))) :: rest)).map (seenOf C.toCodec) } =
+          .ok [.iret (l.map RItem.opPath)])
+    (h : ∀ p ∈ l, FullInstPath p ∧ SendablePath S p ∧ cleanPath p = true) :
+    exchange C depth sig dflt host Srv row c =
+      .ok (.list (l.map (fun p => CObj.obj (.path (wdPath C.toCodec p))))) := by
+  rw [C04_commutes_iret C S hC hK depth sig dflt host Srv row c ns _ _ _ hprep hop hns hps hret hS
+    (C04_childrt_assoc_names C S hC hK depth host row.op.toList l h)]
+  simp only [clientPost, hrow, List.head?, htp, firstIret, pure, Except.pure, bind, Except.bind]
+  rw [third_tagged "OBJECTPATH".toList (fun p => CObj.obj (.path (wdPath C.toCodec p))) l]
+  show (if _ then _ else _) = _
+  rw [if_pos]
+  simp only [List.all_map, List.all_eq_true]
+  intro p hp
+  obtain ⟨hf, _⟩ := h p hp
+  match p, hf with
+  | .inst c' (some hh) (some n') ks, _ => rfl
+
+include hC hK in
+/-- **Associators / References of an instance, end to end**: the caller gets the instances the server behaviour
+    answered, each with its path, with the DSP0201 defaults -/
+theorem C04_assoc_instances_commutes (ns n : Str) (tp : Path) (rest : Params) (l : List (Path × Inst))
+    (hrow : row.post = .assocObjects) (hret : row.hasReturn = true) (htp : Path.isInst tp = true)
+    (hprep : prepare dflt row c = .ok (ns, (n, some (.obj (.path tp))) :: rest))
+    (hop : StableAttr row.op.toList) (hns : StableAttr ns)
+    (hps : ∀ q ∈ dropNone ((n, some (.obj (.path tp))) :: rest), CleanParam S depth sig row.op.toList q)
+    (hS : Srv { op := row.op.toList, ns := ns,
+                params := (dropNone ((n, some (.obj (.path tp))) :: rest)).map (seenOf C.toCodec) } =
+          .ok [.iret (l.map (fun x => RItem.opInst (Inst.setPath x.1 x.2)))])
+    (h : ∀ x ∈ l, FullInstPath x.1 ∧ SendablePath S x.1 ∧ SendableInstBody S x.2 ∧ depthInst x.2 ≤ depth ∧
+      cleanPath x.1 = true ∧ cleanInstBody x.2 = true) :
+    exchange C depth sig dflt host Srv row c =
+      .ok (.list (l.map (fun x => CObj.obj (.inst (Inst.setPath (wdPath C.toCodec x.1) (wdInstNoPath C.toCodec x.2)))))) := by
+  rw [C04_commutes_iret C S hC hK depth sig dflt host Srv row c ns _ _ _ hprep hop hns hps hret hS
+    (C04_childrt_assoc_clean_instances C S hC hK depth host row.op.toList l h)]
+  simp only [clientPost, hrow, List.head?, htp, firstIret, pure, Except.pure, bind, Except.bind]
+  rw [third_tagged "VALUE.OBJECTWITHPATH".toList
+    (fun x : Path × Inst => CObj.obj (.inst (Inst.setPath (wdPath C.toCodec x.1) (wdInstNoPath C.toCodec x.2)))) l]
+  simp only [↓reduceIte]
+  show (if _ then _ else _) = _
+  rw [if_pos]
+  simp only [List.all_map, List.all_eq_true]
+  intro x _
+  obtain ⟨p, cl, pp, pr, q⟩ := x
+  rfl
+
+include hC hK in
+/-- **Associators / References of a class, end to end**: the caller gets the (class path, class) pairs the server
+    behaviour answered, each class carrying its path, with the DSP0201 defaults -/
+theorem C04_assoc_classes_commutes (ns n : Str) (tp : Path) (rest : Params) (l : List (Path × Cls))
+    (hrow : row.post = .assocObjects) (hret : row.hasReturn = true) (htp : Path.isInst tp = false)
+    (hprep : prepare dflt row c = .ok (ns, (n, some (.obj (.path tp))) :: rest))
+    (hop : StableAttr row.op.toList) (hns : StableAttr ns)
+    (hps : ∀ q ∈ dropNone ((n, some (.obj (.path tp))) :: rest), CleanParam S depth sig row.op.toList q)
+    (hS : Srv { op := row.op.toList, ns := ns,
+                params := (dropNone ((n, some (.obj (.path tp))) :: rest)).map (seenOf C.toCodec) } =
+          .ok [.iret (l.map (fun x => RItem.opCls x.1 x.2))])
+    (h : ∀ x ∈ l, FullClsPath x.1 ∧ SendablePath S x.1 ∧ SendableCls S x.2 ∧ depthCls x.2 ≤ depth ∧
+      cleanPath x.1 = true ∧ cleanCls x.2 = true) :
+    exchange C depth sig dflt host Srv row c =
+      .ok (.list (l.map (fun x => CObj.pair (wdPath C.toCodec x.1)
+        (Cls.setPath (wdPath C.toCodec x.1) (wdCls C.toCodec x.2))))) := by
+  rw [C04_commutes_iret C S hC hK depth sig dflt host Srv row c ns _ _ _ hprep hop hns hps hret hS
+    (C04_childrt_assoc_classes C S hC hK depth host row.op.toList l h)]
+  simp only [clientPost, hrow, List.head?, htp, firstIret, pure, Except.pure, bind, Except.bind]
+  rw [third_tagged "VALUE.OBJECTWITHPATH".toList
+    (fun x : Path × Cls => CObj.pair (wdPath C.toCodec x.1) (Cls.setPath (wdPath C.toCodec x.1) (wdCls C.toCodec x.2))) l]
+  simp only [Bool.false_eq_true, if_false]
+  apply classLevel_pairs
+  intro x hx
+  obtain ⟨hf, _⟩ := h x hx
+  obtain ⟨p, cl⟩ := x
+  match p, hf with
+  | .cls c' (some hh) (some n'), _ => exact ⟨_, _, _, _, rfl⟩
+
+include hC hK in
+/-- **ExecQuery end to end**: the instances the server behaviour answered (sent as VALUE.OBJECT) arrive with the
+    DSP0201 defaults and the path `_cim_operations.ExecQuery` creates for them: class name + effective namespace -/
+theorem C04_execquery_commutes (ns : Str) (ps : Params) (l : List Inst)
+    (hrow : row.post = .execQuery) (hret : row.hasReturn = true) (hform : instForm row.op.toList = .valueObject)
+    (hprep : prepare dflt row c = .ok (ns, ps))
+    (hop : StableAttr row.op.toList) (hns : StableAttr ns)
+    (hps : ∀ q ∈ dropNone ps, CleanParam S depth sig row.op.toList q)
+    (hS : Srv { op := row.op.toList, ns := ns, params := (dropNone ps).map (seenOf C.toCodec) } =
+          .ok [.iret (l.map RItem.inst)])
+    (h : ∀ i ∈ l, SendableInstBody S i ∧ depthInst i ≤ depth ∧ cleanInstBody i = true) :
+    exchange C depth sig dflt host Srv row c =
+      .ok (.list (l.map (fun i => queryInst ns (wdInstNoPath C.toCodec i)))) := by
+  rw [C04_commutes_iret C S hC hK depth sig dflt host Srv row c ns _ _ _ hprep hop hns hps hret hS
+    (C04_childrt_query_instances C S hC hK depth host row.op.toList hform l h)]
+  simp only [clientPost, hrow, firstIret, pure, Except.pure, bind, Except.bind]
+  rw [third_tagged "VALUE.OBJECT".toList (fun i : Inst => CObj.obj (.inst (wdInstNoPath C.toCodec i))) l]
+  simp only [mapM_fixQuery]
+
+end
+
 /-- non-vacuity of `WireOk` / `C04_objrt_from_C01` / `ParamOk.obj`: an instance name with a string key, for the toy
     codec that satisfies `CodecOk` (Proofs/Lemmas/CimXml10.lean) -/
 def exampleName : Obj := .path (.inst "CIM_Foo".toList none none [.mk (some "Name".toList) (.str "a&b <c>".toList)])
@@ -470,6 +755,27 @@ example : WireOk toyCodec toySpec 0 exampleName := by
   simp [exampleName, Sendable, SendablePath, SendableKeys, SendableKey, AtomOk, NoDupKeyNames, Key.name, NsOk]
 
 example : IsParamObj exampleName := trivial
+
+/-- non-vacuity of the clean route: cleanliness is decided on the object, `WireOk` follows -/
+example : WireOk toyCodec toySpec 0 exampleName :=
+  C04_wireok_of_clean toyCodec toySpec toyCodecClean 0 exampleName
+    (by simp [exampleName, Sendable, SendablePath, SendableKeys, SendableKey, AtomOk, NoDupKeyNames, Key.name, NsOk])
+    (by decide) (by decide)
+
+/-- non-vacuity of `C04_childrt_assoc_names` / `C04_childrt_assoc_classes` / `C04_childrt_query_instances` -/
+def exampleFullPath : Path :=
+  .inst "CIM_Foo".toList (some "srv".toList) (some "root/cimv2".toList) [.mk (some "Name".toList) (.str "a&b <c>".toList)]
+
+example : ChildRT toyCodec (embAt toyCodec 0) "srv".toList "AssociatorNames".toList
+    (.iret [RItem.opPath exampleFullPath])
+    (.iret [CItem.tagged "OBJECTPATH".toList (.obj (.path (wdPath toyCodec.toCodec exampleFullPath)))]) :=
+  C04_childrt_assoc_names _ toySpec toyCodecOk toyCodecClean 0 _ _ [exampleFullPath] (by
+    intro p hp
+    simp only [List.mem_singleton] at hp
+    subst hp
+    refine ⟨trivial, ?_, by decide⟩
+    simp [exampleFullPath, SendablePath, SendableKeys, SendableKey, AtomOk, NoDupKeyNames, Key.name, NsOk]
+    decide)
 
 /-- an instance whose string property is EMPTY (its `<VALUE></VALUE>` arrives without a text node) is covered -/
 def exampleEmptyString : Obj :=
